@@ -141,7 +141,7 @@ def build_cases(tier: str):
     D = 1 if tier == "quick" else 2
     cases = []
     for profile in (sqlgen.TABLE_PROFILE, sqlgen.COLUMN_PROFILE):
-        cs, _ = enumerate_cases(profile, D, 2)
+        cs, _ = enumerate_cases(profile, D, 2, new_alt_bound=None if tier == "quick" else 1)
         for sql, (st, trace, ndev) in cs:
             f = sqlgen.features(st)
             dialect = "postgres" if (st["kind"] == "select_into" or "item:pgcast" in f) else "ansi"
